@@ -54,6 +54,7 @@ def run(ctx, rep):
     sign_distrib(rep, ctx.prog("Q"))
     obs_year(rep, ctx.prog("Q"))
     verbatim(rep, ctx.prog("Q"))
+    absolute_source(ctx, rep)
     from ..rules_parse import minute_offset_print
     minute_offset_print(rep, ctx.prog("Q"))
     prog = ctx.prog("Q")
@@ -71,6 +72,51 @@ def run(ctx, rep):
                 out.append(k)
         return sorted(set(out))
     run_e1(ctx, rep, roots, min_roots=20, min_sites=300)
+
+
+def absolute_source(ctx, rep, rule="ABSOLUTE-SOURCE"):
+    """`%s` parses an instant; a later `%z` must not be able to move it"""
+    from .. import dep
+    rep.rule(rule, "BrokenDownTime::to_timestamp has a non-error return that depends on something the `%s` handler "
+                   "(Parser::parse_timestamp) stores and does not depend on the `offset` field, and to_zoned_with has one that "
+                   "does not depend on the civil fields: `%s` writes the UTC decomposition of the instant together with offset "
+                   "UTC, a later `%z`/`%:z` replaces only the offset, and an instant recomputed from civil fields and offset is "
+                   "then off by that offset (`strftime(\"%s %z\")` of 16:24:59-04:00 parsed back as 2024-07-16T00:24:59Z)")
+    prog = ctx.prog("Q")
+    eng = getattr(ctx, "_dep_Q", None)
+    if eng is None:
+        eng = dep.Engine(prog)
+        setattr(ctx, "_dep_Q", eng)
+    h = [g for k, g in prog.fns.items() if k.startswith("jiff::fmt::strtime::parse::Parser") and k.endswith("::parse_timestamp")]
+    if not h:
+        rep.violation(rule, "handler", "anchor missing: strtime Parser::parse_timestamp", "src/fmt/strtime/parse.rs")
+        return
+    written = set()
+    for b in h[0].blocks:
+        for st in b["st"]:
+            if st["s"] == "=" and "p" in st.get("lhs", {}):
+                for e in st["lhs"]["p"]:
+                    if isinstance(e, dict) and e.get("adt", "").endswith("BrokenDownTime"):
+                        written.add(e.get("n"))
+    civil = {"year", "month", "day", "hour", "minute", "second"}
+    for fn_, forbidden, what in (("to_timestamp", {"offset"}, "the offset field"), ("to_zoned_with", civil, "the civil fields")):
+        fd = eng.fndeps("jiff::fmt::strtime::BrokenDownTime::" + fn_)
+        key = "BrokenDownTime::" + fn_
+        if fd is None:
+            rep.violation(rule, key, "anchor missing: function not found", "src/fmt/strtime/mod.rs")
+            continue
+        alts_ = [a for a in fd.alternatives(((),)) if a[1] not in ("err", "none")]
+        good = []
+        for a in alts_:
+            deps = {s_[2][0] for s_ in a[2][()] if s_[0] == "p" and s_[1] == 1 and s_[2]}
+            if deps & written and not (deps & forbidden):
+                good.append((a[3], sorted(deps)))
+        loc = fd.fn.loc() if hasattr(fd.fn, "loc") else "src/fmt/strtime/mod.rs"
+        if good:
+            rep.ok(rule, key, how="the return at line %s depends on %s only" % (good[0][0], good[0][1]), loc=loc)
+        else:
+            rep.violation(rule, key, "every non-error return depends on %s: the instant that `%%s` parsed (handler writes %s) is "
+                          "recomputed from fields that a later directive can replace independently" % (what, sorted(written)), loc)
 
 
 def name_tables(rep, prog, rule="NAME-TABLE"):
